@@ -50,6 +50,30 @@ def reachable_classes(ctx, start):
     return seen
 
 
+AUTO_INSERTING = (("ext", "collections.defaultdict"), ("ext", "collections.Counter"))
+
+
+def value_sources(ctx, t, depth=0):
+    """The terms a value can come from: through conditional values, NewType/cast wrappers already removed by the evaluator, and
+    the returns of package functions it is the result of (a helper that builds and returns the mapping), up to four calls deep."""
+    if not isinstance(t, tuple) or not t:
+        return []
+    if t[0] == "ite":
+        return value_sources(ctx, t[2], depth) + value_sources(ctx, t[3], depth)
+    if t[0] == "call" and t[1][0] in ("func", "closure", "boundcls") and depth < 4:
+        g = ctx.prog.functions.get(t[1][1])
+        if g is not None:
+            try:
+                rets = ctx.ev.summary(g).rets()
+            except Exception:
+                rets = []
+            out = []
+            for e in rets:
+                out += value_sources(ctx, e.value, depth + 1)
+            return out or [t]
+    return [t]
+
+
 def dict_based(ctx, f):
     """Does this method read self.__dict__ ?"""
     s = ctx.summary(f)
@@ -166,8 +190,8 @@ def run(ctx, rep):
                     continue
                 r3.inst(f"{q}: {cc.name}(...) arguments")
                 for k, v in list(c.kwargs) + [(i, a) for i, a in enumerate(c.args)]:
-                    for t in [v]:
-                        if t[0] == "call" and t[1] == ("ext", "collections.defaultdict"):
+                    for t in value_sources(ctx, v):
+                        if t[0] == "call" and t[1] in AUTO_INSERTING:
                             fail(r3, ctx, g, c.node, f"{cc.name}.{k} receives a collections.defaultdict: reading an absent key on the finished object "
                                                      f"inserts it (a read that mutates)")
         for e in s.effects:
